@@ -395,7 +395,7 @@ def check(ctx):
                 if name in m.params:
                     continue
                 passed = any(isinstance(a, ast.Name) and a.id == name
-                             for call in util.method_calls(m.node, "fit_model") for a in call.args)
+                             for call in util.method_calls(m.node, "fit_model") for a in list(call.args) + [k.value for k in call.keywords])
                 ctx.ob("C20.R5.passed", f"{m.qualname}|{name}", passed, m.where(),
                        f"solver '{name}' is fitted through fit_model" if passed
                        else f"solver '{name}' is created but never passed to fit_model")
